@@ -244,28 +244,39 @@ fn overlap_case(dir: u8, cfg: (u8, u8, u8, u8), a_subject: bool, same_operand: b
     }
     std::mem::forget((sa, sb, v, first_a, first_b));
 }
-fn overlap_dir(dir: u8) {
-    let mut i = 0;
-    while i < 9 {
+fn overlap_dir(dir: u8, lo: usize, hi: usize, same_too: bool) {
+    let mut i = lo;
+    while i < hi {
         overlap_case(dir, CONFIGS[i], true, false);
         overlap_case(dir, CONFIGS[i], false, false);
         i += 1;
     }
-    overlap_case(dir, CONFIGS[5], true, true);
-    overlap_case(dir, CONFIGS[1], false, true);
+    if same_too {
+        overlap_case(dir, CONFIGS[5], true, true);
+        overlap_case(dir, CONFIGS[1], false, true);
+    }
     kani::cover!(true, "all templates executed");
 }
 macro_rules! pi_overlap {
-    ($name:ident, $dir:expr) => {
+    ($name:ident, $dir:expr, $lo:expr, $hi:expr, $same:expr) => {
         #[kani::proof]
-        #[kani::unwind(12)]
+        #[kani::unwind(6)]
         #[kani::stub(robust::orient2d, super::common::orient2d_stub)]
         fn $name() {
-            overlap_dir($dir)
+            overlap_dir($dir, $lo, $hi, $same)
         }
     };
 }
-pi_overlap!(pi_overlap_horizontal, 0);
-pi_overlap!(pi_overlap_vertical, 1);
-pi_overlap!(pi_overlap_rising, 2);
-pi_overlap!(pi_overlap_falling, 3);
+// configurations 0-2: common left endpoint (typing); 3-4: common right; 5-6: partial; 7-8: containment
+pi_overlap!(pi_overlap_horizontal_left, 0, 0, 3, true);
+pi_overlap!(pi_overlap_horizontal_right, 0, 3, 5, false);
+pi_overlap!(pi_overlap_horizontal_partial, 0, 5, 7, false);
+pi_overlap!(pi_overlap_horizontal_contain, 0, 7, 9, false);
+pi_overlap!(pi_overlap_vertical_left, 1, 0, 3, true);
+pi_overlap!(pi_overlap_vertical_right, 1, 3, 5, false);
+pi_overlap!(pi_overlap_vertical_partial, 1, 5, 7, false);
+pi_overlap!(pi_overlap_vertical_contain, 1, 7, 9, false);
+pi_overlap!(pi_overlap_rising_left, 2, 0, 3, false);
+pi_overlap!(pi_overlap_rising_rest, 2, 3, 9, false);
+pi_overlap!(pi_overlap_falling_left, 3, 0, 3, false);
+pi_overlap!(pi_overlap_falling_rest, 3, 3, 9, false);
